@@ -11,7 +11,7 @@ use std::sync::Mutex;
 
 const TOKENS: [&str; 12] = ["word", "\n", "*/", "/*", "//", "\"\"\"", "'''", "\\", "#", "`", "\"", "'"];
 const TOKEN_NAMES: [&str; 12] = ["word", "NL", "*/", "/*", "//", "\"\"\"", "'''", "backslash", "#", "backtick", "\"", "'"];
-const SYNTAXES: [&str; 3] = ["line", "block", "attr"];
+const SYNTAXES: [&str; 4] = ["line", "block", "attr", "raw-attr"];
 const POSITIONS: [&str; 12] = ["type", "field", "unit-variant", "variant", "variant-field", "alias", "unit-enum-type", "algebraic-enum-type", "algebraic-unit-variant", "algebraic-struct-variant", "newtype-struct", "unit-struct"];
 /// item-level `#[typeshare(..)]` arguments that send an item through another writer of a backend
 const DECORS: [&str; 4] = ["none", "kotlin-JvmInline-on-alias-and-newtype", "redacted-everywhere-plus-JvmInline", "swift-decorators-and-constraints"];
@@ -34,7 +34,8 @@ pub fn gen(ch: &mut Chooser, max_len: usize) -> Case {
     let len = 1 + ch.choose("len", max_len);
     let word: Vec<usize> = (0..len).map(|_| ch.choose("token", TOKENS.len())).collect();
     let spaced = ch.flag("spaced");
-    let syntax = *ch.pick("syntax", &SYNTAXES);
+    // (quick tier: the raw-string spelling for words of up to two tokens)
+    let syntax = if max_len < 4 && len == 3 { *ch.pick("syntax", &SYNTAXES[..3]) } else { *ch.pick("syntax", &SYNTAXES) };
     let position = *ch.pick("position", &POSITIONS);
     let lang = *ch.pick("lang", &ALL_LANGS);
     // quick tier: the companion dimension for words of up to two tokens (the three-token words run without it)
@@ -62,6 +63,14 @@ pub fn doc_for(c: &Case) -> Option<Doc> {
                 None
             } else {
                 Some(Doc::Block(p))
+            }
+        }
+        "raw-attr" => {
+            // r##"…"## ends at the first `"##`
+            if p.contains("\"##") {
+                None
+            } else {
+                Some(Doc::RawAttr(p))
             }
         }
         _ => Some(Doc::Attr(p)),
